@@ -215,6 +215,8 @@ def run_shards(variants, tier, seed, wdir, replay_dir, scale=1, san=False, timeo
                 continue
             results.append(('abnormal', {'prog': v['prog'], 'qcap': v['qcap'], 'case': at, 'kind': kind, 'stderr': err[-6000:], 'bin': v['bin'], 'tag': v['tag']}, None))
             cur = at + 1
+            if sum(1 for r in results if r[0] == 'abnormal') >= 6:
+                break          # this chunk keeps dying: enough witnesses, do not restart thousands of processes
         return results
     with ThreadPoolExecutor(NCPU) as ex:
         for res in ex.map(one, jobs):
@@ -501,14 +503,11 @@ def do_replay(path):
             r = subprocess.run([out, '--seed', str(hdr.get('seed', 1)), '--producers', str(hdr.get('producers', 4)), '--triggers', str(hdr.get('triggers', 20000))], env=dict(os.environ, TSAN_OPTIONS='halt_on_error=1:exitcode=66'))
             bad += r.returncode != 0
         log('runs with a report or mismatch: %d of 5' % bad); sys.exit(1 if bad else 0)
-    cfg = None
-    for p, c in CHECKS.items():
-        if any(pr == hdr['prog'] for pr, _ in c.get('progs', [])):
-            cfg = c
+    extras = {p: ex for p, _, ex, _ in C03_REPLAY}.get(hdr['prog'], [])
     bdir = os.path.join(ROOT, 'build', 'replay')
     shutil.rmtree(bdir, ignore_errors=True)
     flags = BASE_FLAGS + (SAN_FLAGS if hdr.get('san') else [])
-    v = build_variants(bdir, [{'prog': hdr['prog'], 'qcap': hdr['qcap'], 'cc': 'gcc', 'flags': flags, 'tag': 'replay', 'extra': (cfg or {}).get('extra', [])}])[0]
+    v = build_variants(bdir, [{'prog': hdr['prog'], 'qcap': hdr['qcap'], 'cc': 'gcc', 'flags': flags, 'tag': 'replay', 'extra': extras}])[0]
     cmd = [v['bin'], '--seed', str(hdr['seed']), '--tier', hdr['tier'], '--case', str(hdr['case'])] + (['--san'] if hdr.get('san') else [])
     log('replaying:', ' '.join(cmd))
     r = subprocess.run(cmd)
